@@ -18,13 +18,20 @@ def queries(tier):
             d = dict({'OP': op, 'NPAUSED': np}, **extra)
             qs.append(Query(name='%s[%d paused threads; lock state, awaited events, run queue free]' % (nm, np), harness='C11_threads.c', units=UNITS,
                             unit_defs=UD, defs=d, unwind=8, remove_bodies=EXC, cap=300, backends=['cadical', 'minisat'], functions=FUNCTIONS))
+    # one scheduler step: joiners of a terminated thread and due timeouts are woken, nobody is lost, round robin
+    for term in (0, 1):
+        for np in (0, 1, 2):
+            qs.append(Query(name='scheduler step[current thread %s; %d paused threads: join/mutex waits, wake-up times, clock, run queue free]' % ('terminated' if term else 'pre-empted', np),
+                            harness='C11_threads.c', units=UNITS, unit_defs=UD, defs={'OP': 6, 'NPAUSED': np, 'TERMINATED': term}, unwind=8, remove_bodies=EXC, cap=600,
+                            cuts=['sexp_make_thread', 'sexp_env_cell', 'sexp_intern', 'sexp_insert_timed'], backends=['cadical', 'minisat', 'kissat'], functions=FUNCTIONS + ['sexp_scheduler']))
     return qs
 
 
 BOUNDS = {'threads': 'current thread + up to 2 paused threads + 1 queued thread; each paused thread waits on the mutex or the condition variable (free choice)',
           'state': 'mutex locked or not (free), run queue empty or one entry (free), no timeouts'}
-ASSUMPTIONS = R_ASSUME + ['pre-emption only between VM instructions, every primitive is one foreign call: schedules are words over primitives and scheduler steps (argument, not checked)',
+ASSUMPTIONS = R_ASSUME + ['scheduler step: the paused list is ordered as sexp_insert_timed keeps it (timed waiters first, by time); gettimeofday returns one arbitrary instant; no pending signals, no polled descriptors',
+                          'pre-emption only between VM instructions, every primitive is one foreign call: schedules are words over primitives and scheduler steps (argument, not checked)',
                           'timeouts are #f (gettimeofday not involved)']
-OUTSIDE = ['sexp_scheduler (fd polling, signals, timed wake-ups) and the fuel countdown of sexp_apply: not encoded in this tier',
+OUTSIDE = ['fd polling and signal delivery inside sexp_scheduler, a current thread that is itself blocked (the nap / earliest-timeout path), the fuel countdown of sexp_apply',
            'the Scheme retry loops of lib/srfi/18/interface.scm; "a mutex-protected program prints the same for every schedule" (whole program)',
            'more than 2 paused threads; timed waits']
